@@ -40,7 +40,8 @@ EXPLANATION = (
 ASSUMPTIONS = ["child.next_scheduled_time() returns the child's cache maintained per C02.b/c", "times are multiples of MIN_TD"]
 DECIDED = ["a push half wired", "b nested_schedule_node_impl table", "c pull half", "d owner protocol (8 owners)", "e single nested node",
            "f boundaries are bindings",
-           'j try_except pulls on the failing exit (= C15.c)', 'k pass-through only for an unchanged argument (= C06.f)', 'l nested start samples with valid() (= C12.m)', 'm pass-through of a non-peered structural argument (known finding F-C09-2)']
+           'j try_except pulls on the failing exit (= C15.c)', 'k pass-through only for an unchanged argument (= C06.f)', 'l nested start samples with valid() (= C12.m)', 'm pass-through of a non-peered structural argument (known finding F-C09-2)',
+           'n capture de-dup (= C06.j)', 'o captured vs declared boundary in the interning key (= C06.a)', 'p deferred add_node interns only nodes with an output (= C06.b)', 'q passive() tag at the nested boundary (known finding F-C09-3)']
 NOT_DECIDED = ["stream equality for every sub-graph"]
 
 ROOT_NESTED_DIFF = {"parent_kind", "schedule_node_impl", "global_state_impl", "root_impl", "graph_executor_impl", "parent_node_impl",
